@@ -1,9 +1,10 @@
 package rules
 
 import (
-	"go/types"
 	"go/constant"
 	"go/token"
+	"go/types"
+	"sort"
 	"strings"
 
 	"golang.org/x/tools/go/ssa"
@@ -154,7 +155,8 @@ func (c *Ctx) ruleCodegenFlow(rule string) {
 	if found == 0 {
 		c.R.Unresolved(rule, "comparison with the ignore argument")
 	}
-	// type mapping
+	// type mapping: integer -> int64, float -> float64 are required; whatever a type ID of the SDK maps to (itself by
+	// the pass-through default) must not be a Go keyword - the generated field would not parse (`Labels map`)
 	if fn := g.FuncByKey["main.parseType"]; fn != nil {
 		want := map[string]string{"integer": "int64", "float": "float64"}
 		got := map[string]string{}
@@ -177,17 +179,45 @@ func (c *Ctx) ruleCodegenFlow(rule string) {
 				}
 			}
 		}
-		k := key(rule, "main.parseType", "integer->int64, float->float64, everything else unchanged")
-		ok := passThrough && len(got) == len(want)
+		k := key(rule, "main.parseType", "integer->int64, float->float64")
+		ok := true
 		for a, b := range want {
 			if got[a] != b {
 				ok = false
 			}
 		}
 		if ok {
-			c.R.Ok(rule, k, g.Pos(fn.Pos()), "type mapping", "evaluated from the switch: exactly the documented mapping")
+			c.R.Ok(rule, k, g.Pos(fn.Pos()), "type mapping", "evaluated from the switch")
 		} else {
-			c.R.Bad(rule, k, g.Pos(fn.Pos()), "type mapping differs from the documented one", sprintf("evaluated mapping: %v, pass-through default: %v", got, passThrough))
+			c.R.Bad(rule, k, g.Pos(fn.Pos()), "type mapping lost integer->int64 or float->float64", sprintf("evaluated mapping: %v", got))
+		}
+		// the SDK's type IDs
+		if sp := c.M.Types["schema"]; sp != nil {
+			var ids []string
+			for _, name := range sp.Scope().Names() {
+				if cst, ok := sp.Scope().Lookup(name).(*types.Const); ok {
+					if n, ok := cst.Type().(*types.Named); ok && n.Obj().Name() == "TypeID" {
+						ids = append(ids, constant.StringVal(cst.Val()))
+					}
+				}
+			}
+			sort.Strings(ids)
+			for _, id := range ids {
+				out, mapped := got[id]
+				if !mapped {
+					if !passThrough {
+						continue
+					}
+					out = id
+				}
+				k := key(rule, "main.parseType", "type ID \""+id+"\" maps to something that can stand as a Go type")
+				if token.IsKeyword(out) {
+					c.R.Bad(rule, k, g.Pos(fn.Pos()), "type ID \""+id+"\" is emitted as the Go keyword `"+out+"`",
+						"the generated field `X "+out+"` does not parse: format.Source fails and the generator panics for any schema with a "+id+"-typed property")
+				} else {
+					c.R.Ok(rule, k, g.Pos(fn.Pos()), "emitted type name", "\""+id+"\" -> "+out)
+				}
+			}
 		}
 	} else {
 		c.R.Unresolved(rule, "function main.parseType")
@@ -205,6 +235,9 @@ func (c *Ctx) ruleCodegenFlow(rule string) {
 				var idEdge, tidEdge = -1, -1
 				for i, e := range phi.Edges {
 					p := g.ValPath(e)
+					if pc, isCall := e.(*ssa.Call); isCall && strings.HasSuffix(core.StaticCalleeName(&pc.Call), "parseType") && len(pc.Call.Args) == 1 {
+						p = g.ValPath(pc.Call.Args[0])
+					}
 					if strings.HasSuffix(p, ".Type.Id") {
 						idEdge = i
 					} else if strings.HasSuffix(p, ".Type.TypeID") {
@@ -228,6 +261,41 @@ func (c *Ctx) ruleCodegenFlow(rule string) {
 			c.R.Ok(rule, k, g.Pos(fn.Pos()), "field type selection", "phi(Type.Id | Type.TypeID == \"ref\", Type.TypeID otherwise)")
 		} else {
 			c.R.Bad(rule, k, g.Pos(fn.Pos()), "field type selection is not `referenced ID for refs, type ID otherwise`", "")
+		}
+		// the type mapping applies to type IDs only: a referenced object's ID must not go through it
+		k2 := key(rule, "main.mustGenerateTypeDef", "parseType is never applied to a referenced object's ID")
+		bad := ""
+		var derivesFromRefID func(v ssa.Value, d int) bool
+		derivesFromRefID = func(v ssa.Value, d int) bool {
+			if d > 4 {
+				return false
+			}
+			if strings.HasSuffix(g.ValPath(v), ".Type.Id") {
+				return true
+			}
+			if phi, isPhi := v.(*ssa.Phi); isPhi {
+				for _, e := range phi.Edges {
+					if derivesFromRefID(e, d+1) {
+						return true
+					}
+				}
+			}
+			return false
+		}
+		for _, b := range fn.Blocks {
+			for _, in := range b.Instrs {
+				if pc, isCall := in.(*ssa.Call); isCall && strings.HasSuffix(core.StaticCalleeName(&pc.Call), "parseType") && len(pc.Call.Args) == 1 {
+					if derivesFromRefID(pc.Call.Args[0], 0) {
+						bad = g.InstrPos(pc)
+					}
+				}
+			}
+		}
+		if bad == "" {
+			c.R.Ok(rule, k2, g.Pos(fn.Pos()), "type mapping of field types", "no call of parseType receives a reference ID")
+		} else {
+			c.R.Bad(rule, k2, bad, "the integer/float type mapping is applied to referenced object IDs",
+				"a reference to an object named \"integer\" or \"float\" is emitted as int64 / float64 instead of the object's struct")
 		}
 	}
 }
